@@ -330,7 +330,7 @@ func (fr *Frame) load(l *Loc) *Val {
 		vc.assumed["io.EOF is never reassigned"] = true
 		return &Val{t: mkIfc("1000000", "999999"), sort: sIfc, typ: l.typ}
 	}
-	if l.kind == locGlobal && strings.HasPrefix(l.root, "G$Err") && len(l.path) == 0 && sortOf(l.typ) == sIfc {
+	if l.kind == locGlobal && isErrGlobal(l.root) && len(l.path) == 0 && sortOf(l.typ) == sIfc {
 		// package-level error values: immutable, non-nil, pairwise distinct
 		vc.assumed["package-level Err* variables are never reassigned, non-nil and pairwise distinct"] = true
 		return &Val{t: mkIfc("1000000", intLit(int64(1000000+fr.eng.strID(l.root)))), sort: sIfc, typ: l.typ}
@@ -431,6 +431,18 @@ func (fr *Frame) assumeWF(v *Val) {
 	case sIfc:
 		fr.vc.fact(and(app("<=", "0", iTag(v.t)), app("<=", "0", iVal(v.t)), app("<=", iVal(v.t), fr.st.alloc), implies(eq(iTag(v.t), "0"), eq(iVal(v.t), "0"))))
 	}
+}
+
+// isErrGlobal: G$ErrXxx or G$<pkg>_ErrXxx (package-level error sentinels).
+func isErrGlobal(root string) bool {
+	if !strings.HasPrefix(root, "G$") {
+		return false
+	}
+	n := root[2:]
+	if i := strings.Index(n, "_"); i >= 0 && !strings.HasPrefix(n, "Err") {
+		n = n[i+1:]
+	}
+	return strings.HasPrefix(n, "Err")
 }
 
 // hasBoundVar reports whether a term mentions a quantifier / binder variable.
